@@ -1313,6 +1313,86 @@ def probe_vmtuple_parse(ctx):
                     return
 
 
+def probe_after_failures(ctx):
+    """a call that FAILS leaves nothing behind: after several hundred refused inputs each parser still returns, for a valid input,
+    what it returned before (counters / guards / scratch buffers touched on the way to the exception are restored)"""
+    from pytoniq_core import begin_cell
+    from pytoniq_core.boc.cell import Cell
+    from pytoniq_core.boc.hashmap.hashmap import HashMap
+    from pytoniq_core.boc.address import Address
+    from pytoniq_core.tlb.vm_stack import VmStack, VmTuple
+    from pytoniq_core.tlb.account import StateInit
+    from pytoniq_core.tl.generator import TlGenerator
+    rng = ctx.rng
+    ctx.case(('probe-after-failures',))
+    leaf = begin_cell().store_uint(0xAB, 8).end_cell()
+    good_stack = VmStack.serialize([1, VmTuple([2, VmTuple([3, leaf])]), None, leaf.begin_parse()])
+    hm = HashMap(16).with_uint_values(8)
+    for k in (1, 2, 300, 65535):
+        hm.set_int_key(k, k % 251)
+    good_dict = hm.serialize()
+    good_boc = begin_cell().store_uint(7, 16).store_ref(leaf).store_ref(good_dict).end_cell().to_boc(True, True)
+    si = StateInit(code=leaf, data=good_dict).serialize()
+    schemas = TlGenerator.with_default_schemas().generate()
+    good_tl = schemas.serialize(schemas.get_by_name('liteServer.getTime'), {}) if schemas.get_by_name('liteServer.getTime') else None
+    good_addr = Address((0, bytes(range(32)))).to_str()
+
+    def junk(n):
+        return rng.randbytes(n)
+    one = VmStack.serialize([VmTuple([5, VmTuple([6, 1 << 70])])])
+
+    def bad_stack():
+        """a stack whose failure happens INSIDE a value (truncated integer / unknown tag / cut tuple), at a random nesting level"""
+        r = rng.random()
+        if r < 0.4:
+            c = VmStack.serialize([rng.getrandbits(40), VmTuple([1, VmTuple([2, 3])])])
+            return Cell(c.bits[:len(c.bits) - rng.randrange(1, 40)], list(c.refs))
+        if r < 0.7:
+            return begin_cell().store_uint(1, 24).store_ref(begin_cell().end_cell()).store_uint(rng.choice([0xFF, 0x0A, 0x7F, 0x05]), 8).store_bytes(junk(8)).end_cell()
+        return Cell(one.bits[:-3], [Cell(r_.bits[:max(0, len(r_.bits) - 5)], list(r_.refs)) for r_ in one.refs])
+    parsers = [
+        ('VmStack.deserialize', lambda: O.canon(VmStack.deserialize(good_stack.begin_parse())), lambda: VmStack.deserialize(bad_stack().begin_parse())),
+        ('HashMap.parse', lambda: C09_show(HashMap.parse(good_dict.begin_parse(), 16)),
+         lambda: HashMap.parse(begin_cell().store_bytes(junk(rng.randrange(1, 30))).store_ref(leaf).end_cell().begin_parse(), rng.choice([1, 8, 16, 300]))),
+        ('Cell.one_from_boc', lambda: O.snapshot(Cell.one_from_boc(good_boc)),
+         lambda: Cell.one_from_boc(good_boc[:rng.randrange(5, len(good_boc))] + junk(rng.randrange(0, 9)))),
+        ('StateInit.deserialize', lambda: O.canon(StateInit.deserialize(si.begin_parse())),
+         lambda: StateInit.deserialize(begin_cell().store_bytes(junk(rng.randrange(1, 20))).end_cell().begin_parse())),
+        ('Address', lambda: Address(good_addr).to_str(False), lambda: Address(good_addr[:rng.randrange(1, 48)] + 'A')),
+    ]
+    if good_tl is not None:
+        parsers.append(('TlSchemas.deserialize', lambda: repr(schemas.deserialize(good_tl)), lambda: schemas.deserialize(good_tl[:4] + junk(rng.randrange(0, 3)))))
+    for name, good, bad in parsers:
+        try:
+            before = good()
+        except Exception as e:
+            ctx.corr_broken(f'probe after-failures: valid input of {name} raised {type(e).__name__}: {e}')
+            continue
+        failed = 0
+        for _ in range(300):
+            try:
+                bad()
+            except Exception:
+                failed += 1
+        ctx.count(f'after-failures:{name}', failed)
+        try:
+            after = good()
+        except Exception as e:
+            after = f'raised {type(e).__name__}: {e}'
+        if after != before:
+            ctx.fail('order-dependence:after-failures', f'{name} gives another result for the same valid input after {failed} refused inputs '
+                     '(a failed call left state behind)', {'probe': 'after-failures', 'parser': name, 'failed_calls': failed}, _short_repr(after), _short_repr(before))
+
+
+def C09_show(d):
+    return sorted((k, O.canon(v)) for k, v in d.items())
+
+
+def _short_repr(x):
+    s = repr(x)
+    return s if len(s) < 400 else s[:400] + '...'
+
+
 def probe_tlb(ctx):
     from pytoniq_core.tlb.account import StateInit, TickTock
     from pytoniq_core import begin_cell
@@ -1383,7 +1463,7 @@ def probe_address(ctx):
             return
 
 
-PROBES = {'address': probe_address, 'vmtuple-parse': probe_vmtuple_parse, 'ctor-input': probe_ctor_input, 'order': probe_order, 'to_boc-options': probe_to_boc, 'hashmap': probe_hashmap,
+PROBES = {'address': probe_address, 'after-failures': probe_after_failures, 'vmtuple-parse': probe_vmtuple_parse, 'ctor-input': probe_ctor_input, 'order': probe_order, 'to_boc-options': probe_to_boc, 'hashmap': probe_hashmap,
           'vmstack': probe_vmstack, 'vmtuple': probe_vmtuple, 'tlb': probe_tlb}
 
 
